@@ -259,6 +259,178 @@ theorem d5_prefix_drops_callback (d : Dir) (hd : d.Ok) (front api : String) (hk 
     helperPreFix d front api true = ⟨[], [], false⟩ ∧ helper d front api true = ⟨[], [.noService], false⟩ := by
   simp [helperPreFix, helper, refused, getServicePID_none d hd front hk]
 
+/-! ### registrations -/
+
+theorem filter_lookup_self (tbl : List (String × Beh)) (t : String) :
+    (tbl.filter (fun e => e.1 ≠ t)).lookup t = none := by
+  induction tbl with
+  | nil => rfl
+  | cons e rest ih =>
+    by_cases he : e.1 = t
+    · have hd : decide (e.1 ≠ t) = false := by simp [he]
+      simp only [List.filter_cons, hd, Bool.false_eq_true, if_false]; exact ih
+    · have hd : decide (e.1 ≠ t) = true := by simp [he]
+      have hb : (t == e.1) = false := by rw [beq_eq_false_iff_ne]; exact fun h => he h.symm
+      simp only [List.filter_cons, hd, if_true, List.lookup, hb]; exact ih
+
+theorem filter_lookup_other (tbl : List (String × Beh)) (t t' : String) (h : t' ≠ t) :
+    (tbl.filter (fun e => e.1 ≠ t)).lookup t' = tbl.lookup t' := by
+  induction tbl with
+  | nil => rfl
+  | cons e rest ih =>
+    by_cases he : e.1 = t
+    · have hd : decide (e.1 ≠ t) = false := by simp [he]
+      have hb : (t' == e.1) = false := by rw [beq_eq_false_iff_ne, he]; exact h
+      simp only [List.filter_cons, hd, Bool.false_eq_true, if_false, List.lookup, hb]; exact ih
+    · have hd : decide (e.1 ≠ t) = true := by simp [he]
+      simp only [List.filter_cons, hd, if_true, List.lookup]
+      cases (t' == e.1) with
+      | true => rfl
+      | false => exact ih
+
+/-- **`Register(t, f)` is local and final**: afterwards type `t` is ruled by `f` (by the default
+function when `f = nil`), whatever was registered for `t` before — also several times —, every other
+type keeps its rule, and the default function is untouched. -/
+theorem register_is_local (R : Rules) (t t' : String) (b : Option Beh) :
+    (R.register t b).lookup t' = (if t' = t then b.or R.custom else R.lookup t') ∧
+    (R.register t b).hasDefault = R.hasDefault ∧ (R.register t b).custom = R.custom := by
+  refine ⟨?_, rfl, rfl⟩
+  have e1 := filter_lookup_self R.table t
+  have e2 := filter_lookup_other R.table t t'
+  by_cases h : t' = t
+  · subst h
+    cases b with
+    | none => simp only [Rules.register, Rules.lookup, List.nil_append, e1, if_true]
+    | some x => simp [Rules.register, Rules.lookup]
+  · have hb : (t' == t) = false := by simp [h]
+    cases b with
+    | none => simp only [Rules.register, Rules.lookup, List.nil_append, e2 h, h, if_false]
+    | some x =>
+      simp only [Rules.register, Rules.lookup, List.cons_append, List.nil_append, List.lookup, hb, e2 h, h, if_false]
+
+/-! ### a replaced default route function (`route.SetDefaultRoute`) -/
+
+/-- **a replaced default function is a route function like any other**: for a type without a
+registered function `doRoute` calls it under the same deferred `recover`, so every theorem above
+that speaks about `R.lookup t` (`routed_to_named`, `no_instance_no_send_one_callback`, …) covers it. -/
+theorem custom_default_is_a_rule (R : Rules) (d : Dir) (t : String) (b : Beh) (fp : FParam)
+    (hnr : R.table.lookup t = none) (hc : R.custom = some b) :
+    R.lookup t = some b ∧ doRoute R d t fp = (applyBeh b fp).getD "" := by
+  have h : R.lookup t = some b := by simp [Rules.lookup, hnr, hc]
+  exact ⟨h, by simp [doRoute, h]⟩
+
+/-- a function registered for the type takes precedence over any default function -/
+theorem registered_beats_default (R : Rules) (t : String) (b : Beh) (h : R.table.lookup t = some b) :
+    R.lookup t = some b := by
+  simp [Rules.lookup, h]
+
+/-- `SetDefaultRoute(f)` installs `f` for every type without a registered function, whatever was there before -/
+theorem setDefault_installs (R : Rules) (t : String) (b : Beh) (hnr : R.table.lookup t = none) :
+    (R.setDefault (some b)).lookup t = some b ∧ (R.setDefault none).lookup t = none ∧
+    (R.setDefault none).hasDefault = false := by
+  simp [Rules.setDefault, Rules.lookup, hnr]
+
+/-- **a panicking default function is contained** (no guard needed): the recovered `Route` yields "",
+nothing is sent, the request's callback is completed once with `ErrorNoService`. -/
+theorem custom_default_panic_refused (R : Rules) (d : Dir) (r t a m : String) (p : Param) (fp : FParam)
+    (b : Beh) (cb : Bool) (hr : splitClientRoute r = (t, a, m)) (hnr : R.table.lookup t = none)
+    (hc : R.custom = some b) (hv : p.viaFunc = some fp) (hp : applyBeh b fp = none) :
+    request R d r p cb = refused cb ∧ notify R d r p = refused false := by
+  have h := (custom_default_is_a_rule R d t b fp hnr hc).2
+  constructor <;> simp [request, notify, hr, routePID, route_viaFunc R d t p _ hv, h, hp]
+
+/-! ### the caller's state -/
+
+/-- **a refusal reaches the callback whatever the caller's state**: `Request`, `QuerySession` and
+`Kick` complete a refused call by calling the callback directly (`CheckInvokeCBFunc`), not through
+the caller's scheduler — a service whose run service has been stopped experiences exactly the
+outcome a running one does. -/
+theorem refusal_reaches_callback_in_any_caller_state (c : Caller) (R : Rules) (d : Dir) (r : String)
+    (p : Param) (cb : Bool) :
+    requestIn c R d r p cb = request R d r p cb ∧
+    ∀ front api, helperIn c d front api cb = helper d front api cb := by
+  cases c <;> simp [requestIn, helperIn, Outcome.seenBy, completionVia, delivered]
+
+/-- …so every failing rule is refused with its one no-service completion for a stopped caller too -/
+theorem no_instance_one_callback_any_caller (c : Caller) (R : Rules) (d : Dir) (hd : d.Ok) (r t a m : String)
+    (p : Param) (cb : Bool) (hr : splitClientRoute r = (t, a, m)) (hg : NoSentinelNames d.ms)
+    (hf : RuleFails R d.ms t p) :
+    requestIn c R d r p cb = refused cb := by
+  rw [(refusal_reaches_callback_in_any_caller_state c R d r p cb).1]
+  exact (no_instance_no_send_one_callback R d hd r t a m p cb hr hg hf).1
+
+/-- the neighbouring design on record — posting the completion to the caller's scheduler — loses it
+exactly when the caller's run service has been stopped -/
+theorem posted_completion_is_lost_when_stopped :
+    (refused true).seenBy .posted .stopped = ⟨[], [], false⟩ ∧
+    (refused true).seenBy .posted .running = refused true ∧
+    ∀ c, (refused true).seenBy .direct c = refused true := by
+  refine ⟨by decide, by decide, ?_⟩
+  intro c; cases c <;> decide
+
+/-! ### calls that straddle a view update -/
+
+/-- a registered (or replaced default) route function does not read the directory: `Route` yields the
+same name in every view -/
+theorem route_ignores_view (R : Rules) (d1 d2 : Dir) (t : String) (p : Param)
+    (h : (∃ b, R.lookup t = some b) ∨ p.viaFunc = none ∨ R.hasDefault = false) :
+    route R d1 t p = route R d2 t p := by
+  cases hv : p.viaFunc with
+  | none => cases p <;> simp [Param.viaFunc] at hv <;> rfl
+  | some fp =>
+    rw [route_viaFunc R d1 t p _ hv, route_viaFunc R d2 t p _ hv]
+    rcases h with ⟨b, hb⟩ | h | h
+    · simp [doRoute, hb]
+    · rw [hv] at h; cases h
+    · cases hl : R.lookup t <;> simp [doRoute, hl, h]
+
+/-- **a straddling call takes effect at the name lookup**: when the view update lands while the route
+function runs (any function that does not read the directory — every rule but the built-in default),
+the call is served exactly as if it had been issued entirely in the NEW view. -/
+theorem straddling_call_served_from_new_view (R : Rules) (d1 d2 : Dir) (r : String) (p : Param) (cb : Bool)
+    (h : (∃ b, R.lookup (splitClientRoute r).1 = some b) ∨ p.viaFunc = none ∨ R.hasDefault = false) :
+    requestTorn R d1 d2 r p cb = request R d2 r p cb ∧ notifyTorn R d1 d2 r p = notify R d2 r p := by
+  have e := route_ignores_view R d1 d2 (splitClientRoute r).1 p h
+  constructor <;> simp [requestTorn, notifyTorn, request, notify, routePIDTorn, routePID, e]
+
+/-- the parked functions of the correspondence run (`midview`) are such functions -/
+theorem straddles_has_rule (R : Rules) (t : String) (p : Param) (h : straddles R t p = true) :
+    ∃ b, R.lookup t = some b := by
+  unfold straddles at h
+  cases hv : p.viaFunc <;> cases hl : R.lookup t <;> simp [hv, hl] at h
+  exact ⟨_, rfl⟩
+
+/-- **never to something unannounced, torn or not**: whatever two views the two reads of one call see,
+the call is refused (nothing sent, one no-service completion) or sends exactly one message to an
+instance the view of the SECOND read announces under the name `Route` returned. -/
+theorem torn_never_unannounced (R : Rules) (d1 d2 : Dir) (hd : d2.Ok) (r : String) (p : Param) (cb : Bool) :
+    (requestTorn R d1 d2 r p cb = refused cb ∧ notifyTorn R d1 d2 r p = refused false) ∨
+    (∃ pid, Named d2.ms (route R d1 (splitClientRoute r).1 p) pid ∧
+        requestTorn R d1 d2 r p cb = ⟨[⟨pid, (splitClientRoute r).2.1 ++ "." ++ (splitClientRoute r).2.2, true⟩], [], cb⟩ ∧
+        notifyTorn R d1 d2 r p = ⟨[⟨pid, (splitClientRoute r).2.1 ++ "." ++ (splitClientRoute r).2.2, false⟩], [], false⟩) := by
+  by_cases he : route R d1 (splitClientRoute r).1 p = ""
+  · left; constructor <;> simp [requestTorn, notifyTorn, routePIDTorn, he]
+  · rcases getServicePID_cases d2 hd (route R d1 (splitClientRoute r).1 p) with ⟨hn, _⟩ | ⟨pid, hs, hN⟩
+    · left; constructor <;> simp [requestTorn, notifyTorn, routePIDTorn, he, hn]
+    · right; exact ⟨pid, hN, by simp [requestTorn, routePIDTorn, he, hs], by simp [notifyTorn, routePIDTorn, he, hs]⟩
+
+/-- a torn call whose two reads see the same view is an ordinary call -/
+theorem torn_same_view (R : Rules) (d : Dir) (r : String) (p : Param) (cb : Bool) :
+    requestTorn R d d r p cb = request R d r p cb ∧ notifyTorn R d d r p = notify R d r p := by
+  constructor <;> rfl
+
+/-- On record (review finding, the two unsynchronised loads of the DEFAULT path): the built-in default
+rule reads the working list of one view and resolves the name in another — a default-routed request
+can be answered with no-service although BOTH views have an instance of the type on a working node
+(the instance was renamed between the two loads).  Reported, never silently dropped. -/
+theorem torn_default_can_refuse_spuriously :
+    ∃ (d1 d2 : Dir), d1.Ok ∧ d2.Ok ∧
+      request ⟨[], true, none⟩ d1 "gate.handler.enter" .nil true ≠ refused true ∧
+      request ⟨[], true, none⟩ d2 "gate.handler.enter" .nil true ≠ refused true ∧
+      requestTorn ⟨[], true, none⟩ d1 d2 "gate.handler.enter" .nil true = refused true :=
+  ⟨mkDir [⟨"c@n1", "h1", 1, 1, ["gate.g1"]⟩], mkDir [⟨"c@n1", "h1", 1, 1, ["gate.g2"]⟩],
+    mkDir_ok _, mkDir_ok _, by decide, by decide, by decide⟩
+
 /-! ### histories -/
 
 /-- admissibility of the directory is an invariant of every history of view
@@ -300,7 +472,7 @@ namespace NonVacuity
 
 def ms0 : List Member :=
   [⟨"c@n1", "h1", 1, 0, ["chat.c1", "gate.g1", "bad"]⟩, ⟨"c@n2", "h2", 2, 1, ["chat.c2", "gate.g1"]⟩]
-def R0 : Rules := ⟨[("chat", .key "chatid"), ("scene", .panic)], true⟩
+def R0 : Rules := ⟨[("chat", .key "chatid"), ("scene", .panic)], true, none⟩
 def d0 : Dir := mkDir ms0
 def p0 : Param := .map [("chatid", .str "c2")]
 /-- a one-node view with unique names -/
@@ -338,23 +510,23 @@ example := (routed_to_named R0 d0 d0_ok "chat.remote.say" "chat" "remote" "say" 
   (by decide) names0 (by decide)).1 known0
 example : request R0 d0 "chat.remote.say" p0 true = ⟨[⟨("h2:2", "c2"), "remote" ++ "." ++ "say", true⟩], [], true⟩ := by decide
 -- a nesting rule: routes for `gate` with the inner map {chatid: c1}, then answers from the outer map {chatid: c2}
-example := nested_routed_by_outer_key ⟨[("chat", .nest "chatid" "gate" [("chatid", .str "c1")])], true⟩ d0 d0_ok
+example := nested_routed_by_outer_key ⟨[("chat", .nest "chatid" "gate" [("chatid", .str "c1")])], true, none⟩ d0 d0_ok
   "chat.remote.say" "chat" "remote" "say" "chatid" "gate" [("chatid", .str "c1")] [("chatid", .str "c2")] p0 "c2" true
   (by decide) rfl rfl (by decide) (by decide) known0
-example : request ⟨[("chat", .nest "chatid" "gate" [("chatid", .str "c1")])], true⟩ d0 "chat.remote.say" p0 true
+example : request ⟨[("chat", .nest "chatid" "gate" [("chatid", .str "c1")])], true, none⟩ d0 "chat.remote.say" p0 true
     = ⟨[⟨("h2:2", "c2"), "remote" ++ "." ++ "say", true⟩], [], true⟩ := by decide
 -- a default instance on an empty key map: the rule names the default, which the view announces
-example := (routed_to_named ⟨[("chat", .keyd "chatid" "c2")], true⟩ d0 d0_ok "chat.remote.say" "chat" "remote" "say" (.map []) "c2" true
+example := (routed_to_named ⟨[("chat", .keyd "chatid" "c2")], true, none⟩ d0 d0_ok "chat.remote.say" "chat" "remote" "say" (.map []) "c2" true
   (by decide) (.keyDefault (l := []) (b := .keyd "chatid" "c2") (k := "chatid") rfl rfl rfl rfl) (by decide)).1 known0
-example : request ⟨[("chat", .keyd "chatid" "c2")], true⟩ d0 "chat.remote.say" (.map []) true
+example : request ⟨[("chat", .keyd "chatid" "c2")], true, none⟩ d0 "chat.remote.say" (.map []) true
     = ⟨[⟨("h2:2", "c2"), "remote" ++ "." ++ "say", true⟩], [], true⟩ := by decide
-example : request ⟨[("chat", .nilor "c2" "chatid")], true⟩ d0 "chat.remote.say" (.map []) true = refused true := by decide
-example := (empty_map_is_a_map ⟨[("chat", .keyd "chatid" "c2")], true⟩ d0 "chat").1 "chatid" "c2" rfl
+example : request ⟨[("chat", .nilor "c2" "chatid")], true, none⟩ d0 "chat.remote.say" (.map []) true = refused true := by decide
+example := (empty_map_is_a_map ⟨[("chat", .keyd "chatid" "c2")], true, none⟩ d0 "chat").1 "chatid" "c2" rfl
 -- the routing key bound to nil: no fall-back to the default instance `c2`
-example := null_value_is_present ⟨[("chat", .keyd "chatid" "c2")], true⟩ d0 "chat.remote.say" "chat" "remote" "say" "chatid" "c2"
+example := null_value_is_present ⟨[("chat", .keyd "chatid" "c2")], true, none⟩ d0 "chat.remote.say" "chat" "remote" "say" "chatid" "c2"
   [("chatid", .null)] (.map [("chatid", .null)]) .null true (by decide) rfl rfl (by decide) (by intro s h; cases h)
 -- an explicit name, unique in the view
-example := routed_to_the_instance ⟨[], true⟩ d1 d1_ok "x.sys.kick" "x" "sys" "kick" (.str "g1") "g1" true ("h1:1", "g1")
+example := routed_to_the_instance ⟨[], true, none⟩ d1 d1_ok "x.sys.kick" "x" "sys" "kick" (.str "g1") "g1" true ("h1:1", "g1")
   (by decide) (.explicit "g1") (by decide) (known_of_lookup_some d1 d1_ok "g1" _ (by decide)) (d1_unique "g1")
 example := never_dropped_never_unannounced R0 d0 d0_ok "chat.remote.say" p0 true
 -- failing rules: unknown name, panicking function, non-string value, absent key, bad parameter, no working instance
@@ -370,7 +542,7 @@ example : request R0 d0 "scene.remote.enter" .nil true = refused true := by deci
 example : request R0 d0 "chat.remote.say" .other true = refused true := by decide
 example := malformed_route_no_send R0 d0 d0_ok "bad" .nil true (by decide) (by intro s h; cases h) rfl ms0_no_sentinels
 example : request R0 d0 "bad" .nil true = refused true := by decide
-example := unknown_type_no_send ⟨[], true⟩ d1 d1_ok "chat.remote.say" "chat" "remote" "say" .nil true (by decide)
+example := unknown_type_no_send ⟨[], true, none⟩ d1 d1_ok "chat.remote.say" "chat" "remote" "say" .nil true (by decide)
   (by intro s h; cases h) rfl
   (by
     rintro ⟨n, st, pid, a, ha, s, hs, hw, _⟩
@@ -391,13 +563,31 @@ example : request R0 d0 "bad" (.str "c1") true = ⟨[⟨("h1:1", "c1"), "" ++ ".
 example := default_is_working R0 d0 d0_ok "gate.handler.enter" "gate" "handler" "enter" .nil .nilIface false
   (by decide) rfl rfl rfl ms0_no_sentinels
 example : request R0 d0 "gate.handler.enter" .nil false = ⟨[⟨("h1:1", "g1"), "handler" ++ "." ++ "enter", true⟩], [], false⟩ := by decide
-example := default_is_working_unique ⟨[], true⟩ d1 d1_ok "gate.handler.enter" "gate" "handler" "enter" .nil .nilIface true
+example := default_is_working_unique ⟨[], true, none⟩ d1 d1_ok "gate.handler.enter" "gate" "handler" "enter" .nil .nilIface true
   (by decide) rfl rfl rfl d1_no_sentinels (fun n _ => d1_unique n)
-example : request ⟨[], true⟩ d1 "gate.handler.enter" .nil true = ⟨[⟨("h1:1", "g1"), "handler" ++ "." ++ "enter", true⟩], [], true⟩ := by decide
+example : request ⟨[], true, none⟩ d1 "gate.handler.enter" .nil true = ⟨[⟨("h1:1", "g1"), "handler" ++ "." ++ "enter", true⟩], [], true⟩ := by decide
 -- helpers
 example := (helpers_report d0 d0_ok "g9" "sys.kick" true).1 (not_known_of_lookup_none d0 d0_ok _ (by decide))
 example := d5_prefix_drops_callback d0 d0_ok "g9" "sys.kick" (not_known_of_lookup_none d0 d0_ok _ (by decide))
 example : helperPreFix d0 "g9" "sys.kick" true = ⟨[], [], false⟩ ∧ helper d0 "g9" "sys.kick" true = refused true := by decide
+-- a replaced default function: a panicking one is contained, a constant one names its instance
+example := custom_default_panic_refused ⟨[], false, some .panic⟩ d0 "gate.handler.enter" "gate" "handler" "enter" .nil .nilIface .panic true
+  (by decide) rfl rfl rfl rfl
+example : request ⟨[], false, some (.key "k")⟩ d0 "gate.handler.enter" .nil true = refused true := by decide
+example := (routed_to_named ⟨[], false, some (.const "c2")⟩ d0 d0_ok "gate.handler.enter" "gate" "handler" "enter" .nil "c2" true
+  (by decide) (.const (fp := .nilIface) (custom_default_is_a_rule ⟨[], false, some (.const "c2")⟩ d0 "gate" (.const "c2") .nilIface rfl rfl).1 rfl) (by decide)).1 known0
+example := registered_beats_default ⟨[("chat", .key "chatid")], false, some .panic⟩ "chat" (.key "chatid") rfl
+example := setDefault_installs R0 "gate" .panic rfl
+example : ((R0.register "chat" (some .panic)).register "chat" none).lookup "chat" = none ∧
+    ((R0.register "chat" none).register "scene" (some .empty)).lookup "scene" = some .empty := by decide
+-- a stopped caller is refused like a running one
+example := no_instance_one_callback_any_caller .stopped R0 d0 d0_ok "scene.remote.enter" "scene" "remote" "enter" .nil true
+  (by decide) ms0_no_sentinels (.funcPanics (fp := .nilIface) (b := .panic) rfl rfl rfl)
+example : requestIn .stopped R0 d0 "scene.remote.enter" .nil true = refused true := by decide
+-- a view update lands while the key function of `chat` runs: served from the new view (c2 has moved to h1:1)
+example := straddling_call_served_from_new_view R0 d0 d1 "chat.remote.say" p0 true (.inl (straddles_has_rule R0 "chat" p0 (by decide)))
+example : requestTorn R0 d1 d0 "chat.remote.say" p0 true = ⟨[⟨("h2:2", "c2"), "remote" ++ "." ++ "say", true⟩], [], true⟩ := by decide
+example := torn_never_unannounced ⟨[], true, none⟩ d0 d1 d1_ok "gate.handler.enter" .nil true
 -- histories
 example := after_any_history St.init
   [.view ms0 (servicesBy (typeList ms0)), .rule "chat" (some (.key "chatid")), .req "chat.remote.say" p0 true, .view [m1] (servicesBy (typeList [m1]))]
